@@ -79,7 +79,7 @@ def run(tier, seed):
     sdir = vlib.scratch("C10")
     try:
         common.proof_part(rep, "Properties_C10")
-        binary, err = vlib.build_harness("h_algo")
+        binary, err = vlib.build_harness("h_algo_per", sources=["h_algo.cpp"], defines=["FAMILY_PER"])
         if not binary:
             rep.violation(dict(kind="build", clause="h_algo", has_input=True), "harness h_algo does not compile: " + err[-600:], dict(stderr=err))
             return rep.finish()
